@@ -50,7 +50,7 @@ def _draw_dirs(tier, seed):
     if key in _dirs_cache:
         return _dirs_cache[key]
     from hypothesis import HealthCheck, Phase, Verbosity, given, seed as hseed, settings
-    n = 4 if tier == "quick" else 60
+    n = 5 if tier == "quick" else 60
     out = []
 
     @hseed(seed)
@@ -63,9 +63,16 @@ def _draw_dirs(tier, seed):
     t()
     decos = {d["deco"] for d in out}
     # make sure the decorated kinds are represented
-    for i, deco in enumerate(["names", "cap", "zipparent", "abstract-linksyntax"]):
-        if deco not in decos and len(out) > i:
-            out[i] = dict(out[i], deco=deco)
+    needed = ["names", "cap", "zipparent", "abstract-linksyntax"]
+    for deco in needed:
+        have = [d["deco"] for d in out]
+        if deco in have:
+            continue
+        # give it to a directory whose own flavour is not needed or is present twice
+        for j, h in enumerate(have):
+            if h not in needed or have.count(h) > 1:
+                out[j] = dict(out[j], deco=deco)
+                break
     _dirs_cache[key] = out
     return out
 
